@@ -49,6 +49,7 @@ class TimerWorld(pipe.PipeWorld):
         self.gaps = [3600.0, 20000.0, 86400.0, 3 * 86400.0, 6 * 86400.0]
         self.firings = []  # (datetime, alg, targets, known targets then)
         self.defer_calls = 0
+        self.defer_log = []  # (instant, {algorithm: scheduler status at that evaluation})
         self.defer_timers = []
         self.loads = []
 
@@ -130,6 +131,7 @@ class TimerWorld(pipe.PipeWorld):
         sim = self.sim
         self.defer_calls += 1
         nodes = {n.tag: n for n in schedule.per}
+        self.defer_log.append((boot.now_dt(), {tag: getattr(n.get('status'), 'name', str(n.get('status'))) for tag, n in nodes.items()}))
         sentinel = '<sim:not fired>'
         before = {}
         for tag, n in nodes.items():
@@ -226,31 +228,43 @@ class TimerWorld(pipe.PipeWorld):
             boots = [ev for ev in evs if ev[1] == 'boot']
             # every firing lands on a moment: within the window before an occurrence (or a boot firing at a load)
             for t in times:
-                near = [x for x in occ if -1.0 <= (x - t).total_seconds() <= WINDOW + 1.0]
+                near = [x for x in occ if abs((x - t).total_seconds()) <= WINDOW + 1.0]  # the scheduler's firing window reaches 300 s to either side of the moment
                 at_load = boots and any(abs((t - l).total_seconds()) < 1.0 for l in self.loads)
                 if not near and not at_load:
                     nxt = min((x for x in occ if x > t), default=None)
                     prv = max((x for x in occ if x <= t), default=None)
-                    self.violate('C20', 'fired_off_its_moment', '+'.join(sorted({e[1] for e in evs})),
+                    past = [e for e in evs if e[1] == 'day' and _dt.datetime.combine(_dt.date(*e[2]), _dt.time(*e[3]), tzinfo=UTC) < t - _dt.timedelta(seconds=WINDOW)]
+                    sig = 'date_in_the_past' if past else ('+'.join(sorted({e[1] for e in evs if e[1] != 'boot'})) or 'boot')
+                    self.violate('C20', 'fired_off_its_moment', sig,
                                  f'{alg} was queued by the timer at {t.isoformat()} ({t.strftime("%a")}); its events {evs} have no occurrence within the next {int(WINDOW)} s '
                                  f'(previous {prv and prv.isoformat()}, next {nxt and nxt.isoformat()})')
             # every occurrence while the pipeline is up is served (recurrence: weekly / monthly events fire each period)
             for x in occ:
-                hit = [t for t in times if -1.0 <= (x - t).total_seconds() <= WINDOW + 1.0]
+                hit = [t for t in times if abs((x - t).total_seconds()) <= WINDOW + 1.0]
                 if hit:
                     self.probes['occurrence_served'] += 1
                     continue
-                kinds = '+'.join(sorted({e[1] for e in evs}))
+                kinds = '+'.join(sorted({e[1] for e in evs if x in occurrences(e, x - _dt.timedelta(seconds=1), x)}))
                 nth = sum(1 for y in occ if y <= x)
-                self.violate('C20', 'occurrence_missed', f'{kinds}:{"first" if nth == 1 else "later"}',
+                # why: was the timer logic evaluated at all while the occurrence was due, and did it look at this algorithm
+                evals = [(t, st) for t, st in self.defer_log if abs((x - t).total_seconds()) <= WINDOW + 1.0]
+                if not evals:
+                    why = 'no_evaluation_while_due'
+                elif all(st.get(alg) in ('waiting', 'running') for _t, st in evals):
+                    why = 'skipped_because_status_' + '_or_'.join(sorted({st.get(alg) for _t, st in evals}))
+                else:
+                    why = 'evaluated_but_not_fired'
+                self.violate('C20', 'occurrence_missed', f'{kinds}:{why}',
                              f'{alg}: occurrence {x.isoformat()} ({x.strftime("%a")}) of {evs} was never served (process started {self.t0.isoformat()}, '
                              f'firings of {alg}: {[t.isoformat() for t in times][:6]}, defer calls {self.defer_calls}, defer error {self.defer_error})')
             # boot: exactly once per process
             if boots:
-                nboot = sum(1 for t in times if not [x for x in occ if -1.0 <= (x - t).total_seconds() <= WINDOW + 1.0])
+                nboot = sum(1 for t in times if not [x for x in occ if abs((x - t).total_seconds()) <= WINDOW + 1.0])
                 self.probes['boot_event_engine'] += 1
                 if nboot != 1:
-                    self.violate('C20', 'boot_event_count', str(min(nboot, 2)), f'{alg} has a boot event; it fired {nboot} times in one process (loads: {len(self.loads)})')
+                    first = self.defer_log[0][1].get(alg) if self.defer_log else None
+                    why = f'never:status_{first}_at_load' if nboot == 0 else f'again_after_reload:loads={min(len(self.loads), 3)}'
+                    self.violate('C20', 'boot_event_count', why, f'{alg} has a boot event; it fired {nboot} times in one process (loads: {len(self.loads)})')
         if len(self.loads) > 1:
             self.probes['reloaded_with_events'] += 1
         if any(e[1] in ('dow', 'dom') for e in self.spec.events):
